@@ -162,3 +162,33 @@ def nontrivial(r, obs, events):
 def describe(p):
     return ["kind=%s" % ("or", "and", "zip")[p["kind"]], "npos=%d" % len(p["ins"]),
             "dups" if len(set(p["ins"])) < len(p["ins"]) else "nodups", "outcancel=%d" % min(p["out_cancels"], 1)]
+
+
+def extra(stats, tier, seed):
+    """API-level part that is not a race: a single input is returned as is (the very object), whatever its kind/state."""
+    from concurrent.futures import Future
+    from more_executors.futures import f_or, f_and, f_return, f_return_error, f_nocancel, f_map
+    import drive
+    known_patterns = set(k["pattern"] for k in drive.load_known(PROP))
+
+    def viol(what, pattern, detail=None):
+        v = {"what": what, "pattern": pattern, "detail": detail,
+             "case": {"params": {}, "chooser": "none", "cseed": 0, "origin": "api"}}
+        if pattern in known_patterns:
+            stats.known.setdefault(pattern, v)
+        else:
+            stats.violations.append(v)
+    with det.atomic():
+        running = Future()
+        running.set_running_or_notify_cancel()
+        cancelled = Future()
+        cancelled.cancel()
+        inputs = [("pending", Future()), ("running", running), ("done", f_return(0)), ("failed", f_return_error(KeyError("k"))),
+                  ("cancelled", cancelled), ("nocancel", f_nocancel(Future())), ("mapped", f_map(Future(), lambda x: x))]
+        for nm, x in inputs:
+            for op, f in (("f_or", f_or), ("f_and", f_and)):
+                got = f(x)
+                stats.add([[1, 14, len(nm)]], True, None, ["api:single-input"])
+                if got is not x:
+                    viol("%s(x) with a single %s input returned a different object (%s) instead of x itself" % (op, nm, type(got).__name__),
+                         "comb:single-input-not-returned", nm)
